@@ -1362,8 +1362,14 @@ def align_and_inline(doc, anchors):
             # a binding that kept its pinned name and type but was declared in another order (independent lets reordered) is
             # not an extra binding
             left_w = [(w_[0], w_[1]) for j_, w_ in enumerate(want) if j_ not in set(j for _, j in pairs)]
+            cnt_p, cnt_w = {}, {}
+            for p_ in pats:
+                cnt_p[(p_.get("name"), p_.get("ty"))] = cnt_p.get((p_.get("name"), p_.get("ty")), 0) + 1
+            for w_ in want:
+                cnt_w[(w_[0], w_[1])] = cnt_w.get((w_[0], w_[1]), 0) + 1
             for i_ in range(len(pats)):
-                if i_ not in matched and (pats[i_].get("name"), pats[i_].get("ty")) in left_w:
+                key_ = (pats[i_].get("name"), pats[i_].get("ty"))
+                if i_ not in matched and key_ in left_w and cnt_p.get(key_) == 1 and cnt_w.get(key_) == 1:
                     left_w.remove((pats[i_].get("name"), pats[i_].get("ty")))
                     matched.add(i_)
             extra = [pats[i] for i in range(len(pats)) if i not in matched]
